@@ -58,6 +58,7 @@ type c18session struct {
 	httpPath []string
 	sealed   bool
 	stray    int
+	redirected bool // via "redirect-first": the first DoH request has been answered with a redirect
 	refused  bool // via "refuse-first": the first TCP connect has been refused
 
 	wg     sync.WaitGroup
@@ -511,12 +512,32 @@ func (s *c18session) dohReply(req *http.Request) ([]byte, bool) {
 	return c18answer(raw, false), true
 }
 
+// redirectFirst reports (once per session, via "redirect-first" only) that this request is to be redirected.
+func (s *c18session) redirectFirst() bool {
+	if s.cfg.Via != "redirect-first" {
+		return false
+	}
+	s.mu.Lock()
+	defer s.mu.Unlock()
+	first := !s.redirected
+	s.redirected = true
+	return first
+}
+
 func (s *c18session) serveHTTP1(c net.Conn) {
 	br := bufio.NewReader(c)
 	for {
 		req, err := http.ReadRequest(br)
 		if err != nil {
 			return
+		}
+		if s.redirectFirst() {
+			// a DoH server may answer with a redirect to another host; following it is not "the
+			// host the user wrote" (the transport's dialer ignores the address it is asked for,
+			// so a follow-up would open a second connection to the same server under another name)
+			loc := "https://redirected.c18.test" + req.URL.RequestURI()
+			io.WriteString(c, "HTTP/1.1 307 Temporary Redirect\r\nLocation: "+loc+"\r\nContent-Length: 0\r\n\r\n")
+			continue
 		}
 		body, ok := s.dohReply(req)
 		if !ok {
@@ -675,6 +696,11 @@ func (s *c18session) startQuicServer(pc *c18pkt) error {
 				defer conn.CloseWithError(0, "")
 				if conn.ConnectionState().TLS.NegotiatedProtocol == "h3" {
 					h3 := &http3.Server{Handler: http.HandlerFunc(func(w http.ResponseWriter, r *http.Request) {
+						if s.redirectFirst() {
+							w.Header().Set("Location", "https://redirected.c18.test"+r.URL.RequestURI())
+							w.WriteHeader(307)
+							return
+						}
 						body, ok := s.dohReply(r)
 						if !ok {
 							w.WriteHeader(400)
